@@ -355,6 +355,13 @@ func (r *lbRun) enabled() []lbOp {
 			ops = append(ops, lbOp{K: oSReadBinary, N: l - 1, M: i}, lbOp{K: oSSkip, N: 1, M: i})
 		}
 		ops = append(ops, lbOp{K: oSRelease, M: i})
+		if len(r.slices) < 3 && l >= 1 {
+			// a Slice reader cut from a Slice reader (shares the root node's reference count)
+			ops = append(ops, lbOp{K: oSSlice, N: 1, M: i})
+			if l > 1 {
+				ops = append(ops, lbOp{K: oSSlice, N: l, M: i})
+			}
+		}
 	}
 	ops = append(ops, lbOp{K: oClose})
 	return ops
@@ -659,6 +666,25 @@ func (r *lbRun) apply(o lbOp, check bool) {
 		}
 		if s.rd.Len() != len(s.m) {
 			bad("C01", "len", fmt.Sprintf("slice reader Len()=%d, reference %d", s.rd.Len(), len(s.m)))
+		}
+	case oSSlice:
+		s := r.slices[o.M]
+		rd2, err := s.rd.Slice(o.N)
+		if o.N > len(s.m) {
+			wantErr(err, true)
+		} else {
+			wantErr(err, false)
+			r.killResults(o.M + 1) // Slice may release the reader it is cut from
+			s2 := &lbSlice{rd: rd2, m: append([]byte(nil), s.m[:o.N]...)}
+			s2.lb, _ = rd2.(*netpoll.LinkBuffer)
+			r.slices = append(r.slices, s2)
+			s.m = s.m[o.N:]
+			if rd2 == nil || rd2.Len() != o.N {
+				bad("C01", "slice-len", "Slice reader cut from a Slice reader has wrong Len")
+			}
+			if s.rd.Len() != len(s.m) {
+				bad("C01", "len", fmt.Sprintf("slice reader Len()=%d after Slice, reference %d", s.rd.Len(), len(s.m)))
+			}
 		}
 	case oSRelease:
 		s := r.slices[o.M]
